@@ -526,7 +526,9 @@ def replay_chunk(args):
   out = dict(n=0, bad=[], nontrivial=0, sample=None, cats={})
   for (o,) in hists:
     prog = plist[o['p'] - 1]
+    # (monitored phases start a sampling thread per invocation: always under the deterministic scheduler)
     use_sched = (needs_sched(o['calls']) or bool((extra or {}).get('force_sched')) or
+                 any(p.get('mon') for p in progs.all_phases(prog['root'])) or
                  any(v in ('hang', 'hardhang') for v in prog['plugspec']['tdmode'].values()))
     g = build.run_program(prog, o['calls'], use_sched=use_sched, timeout_s=5 if use_sched else None)
     bad = compare(o, g, prog)
@@ -585,7 +587,8 @@ def replay_file(path, owned, pid, families_fn):
     sc = json.load(fh)['scenario']
   fams = dict(families_fn(sc.get('tier', 'quick')))
   prog = fams[sc['family']][sc['shard'] * shard_size(len(fams[sc['family']])) + sc['prog_index']]
-  use_sched = needs_sched(sc['calls']) or any(v in ('hang', 'hardhang') for v in prog['plugspec']['tdmode'].values())
+  use_sched = (needs_sched(sc['calls']) or any(v in ('hang', 'hardhang') for v in prog['plugspec']['tdmode'].values()) or
+               any(p.get('mon') for p in progs.all_phases(prog['root'])))
   g = build.run_program(prog, sc['calls'], use_sched=use_sched, timeout_s=5 if use_sched else None)
   print('real observation: outcome=%s ret=%s crashed=%s' % (g.get('oc'), g.get('ret'), g.get('crashed')))
   print('calls:', [(c['n'], c['att'], c['b']) for c in g.get('calls', [])])
